@@ -987,7 +987,7 @@ def tracker_case(rnd, rounds):
         # consumption script: any subset and order of added/changed/removed, fully, partially or not at all
         reads = []
         for _ in range(rnd.choice([0, 1, 2, 3, 3, 3, 4])):
-            reads.append((rnd.randrange(3), rnd.choice([255, 255, 255, 0, 1, 2])))
+            reads.append((rnd.randrange(3), rnd.choice([255, 255, 255, 255, 0, 1, 2, 100, 101, 102])))
         c += [6, len(reads)] + [x for r in reads for x in r]
     c += [6, 3, 0, 255, 1, 255, 2, 255]
     return c
@@ -1004,13 +1004,21 @@ def nontrivial_tracker(case, obs):
 
 
 # ----------------------------------------------------------------------------- opcode 90: serde
-SERDE_Q = [0, 1, 2, 4, 5, 10, 12, 13, 15]        # catalogue entries used with serialize_satisfying ((): everything)
+SERDE_Q = [0, 1, 2, 4, 5, 10, 12, 13, 15, 24, 25]        # catalogue entries used with serialize_satisfying ((): everything)
 MUT_PARAMS = [0, 1, 2, 3, 4, 5, 7, 100, 1 << 32, (1 << 32) + 3, (1 << 33) + 1, (2 << 32) + 7, (1 << 32) + 40]
 
 
 def serde_case(universe, rnd, nops, malformed):
     g = WorldGen(rnd, rnd.choice(["default", "alloc", "batch"]))
     g.small = True
+    if rnd.random() < 0.1:
+        # two archetypes that differ only in a component the context does not handle collapse onto one serialised
+        # component set: the column decoder merges the second block into the first one's archetype, past its capacity
+        n1, n2 = rnd.choice([40, 63, 64, 65]), rnd.choice([1, 30, 41, 70])
+        for ts, n in (([1], n1), ([1, 5], n2)):
+            g.emit(15, 0, len(ts), ts, n, [g.val() for _ in range(n * len(ts))]); g.materialise(0); g.add(0, True, ts, n=n)
+        for fmt in (0, 1):
+            g.emit(90, 0, fmt, rnd.randrange(2), 0, len(QASTS[0]), QASTS[0], 0)
     for _ in range(nops):
         g.step()
         if rnd.random() < 0.25:
